@@ -21,6 +21,7 @@ type c03Scen struct {
 	AddPos   []int     `json:"add_position"` // per service: Add happens before this many Route calls
 	Preempt  int       `json:"preempt_permille"`
 	NoTrim   bool      `json:"trim_right_slash_off,omitempty"`
+	Traffic  []int     `json:"traffic_during_registration,omitempty"` // probe indices served by another task meanwhile; answers not judged
 }
 
 var c03RootsCurly = []string{"/a", "/{t}", "/a/b", "/a/{t}", "/b", "/", "/ab", "/{t}/b", "/a/{t}/{u}", "/{t}/{u}/c/d", "/{t}/b/{u}", "/a/b/{t}"}
@@ -147,6 +148,10 @@ func genC03(x *Ctx) *c03Scen {
 	}
 	sc.Preempt = []int{400, 150, 700}[tp.G(3)]
 	sc.NoTrim = tp.Chance(100)
+	if tp.Chance(300) {
+		np := len(c03Probes(sc))
+		tp.Repeat(2, 10, 800, func(int) { sc.Traffic = append(sc.Traffic, tp.G(np)) })
+	}
 	return sc
 }
 
@@ -259,6 +264,18 @@ func runC03(x *Ctx) {
 			}
 			if sc.AddPos[i] >= len(sc.RouteOrd[i]) {
 				w.Do(AdminOp{Kind: "add", Svc: sp.ID})
+			}
+		})
+	}
+	if len(sc.Traffic) > 0 {
+		// requests in flight while the table is being registered: whatever they compute or keep must
+		// not show in the answers once registration is complete
+		tprobes := c03Probes(sc)
+		s.Go("traffic", func(t *sim.Task) {
+			for k, pi := range sc.Traffic {
+				t.Req = 1000 + k
+				ServeProbe(w.C, k%2, tprobes[pi], t, 1000+k)
+				t.Y(sim.SiteCheckpoint)
 			}
 		})
 	}
